@@ -318,7 +318,7 @@ func ApplyFault(t *Tree, siteIdx int, op string, r *mon.Rand) (out []byte, path 
 		replaceIn(s, c, mon.Pick(r, refcbor.NFloat64(1.5), refcbor.NFloat32(2), refcbor.NFloat16Bits(0x3c00), refcbor.NFloat16Bits(0x7e00)))
 	case "to-tstr":
 		delete(c.Emb, n)
-		replaceIn(s, c, refcbor.NTstr(mon.Pick(r, "", "a", "a/b", "xyz")))
+		replaceIn(s, c, refcbor.NTstr(mon.Pick(r, "", "a", "a/b", "xyz", " a/b", "a/b ", "text/plain; charset=utf-8 ", " a/b;c=d", "a/b;c=d")))
 	case "to-bstr":
 		delete(c.Emb, n)
 		replaceIn(s, c, refcbor.NBstr(mon.Pick(r, []byte{}, []byte{1}, []byte{0xa0}, []byte{0xa1, 1, 1})))
